@@ -86,7 +86,9 @@ func (p *basePool) get(k int) *base {
 		return b
 	}
 	rng := p.r.RNG(0xba5e, uint64(k))
-	framing := []string{frGzip, frZstd, frExt}[k%3]
+	// bases 0,1,2 = gzip, zstd, ext (the directed cases rely on it); zstd is kept to 3 of
+	// 18 bases because every read of a zstd layer costs the repo a full decoder set-up
+	framing := []string{frGzip, frZstd, frExt, frGzip, frGzip, frExt}[k%6]
 	chunk := []int{64, 64, 512, 64, 256, 4096}[k/3%6]
 	var b *base
 	for attempt := 0; attempt < 8 && b == nil; attempt++ {
@@ -808,7 +810,7 @@ var tocOps = []tocOp{
 		if m == nil {
 			return false
 		}
-		n := rng.Pick(50, 150, 400)
+		n := rng.Pick(20, 60, 150)
 		m["size"] = num(int64(n))
 		m["chunkSize"] = num(1)
 		off := entInt(m, "offset")
@@ -975,7 +977,7 @@ var tocOps = []tocOp{
 		return true
 	}},
 	{"huge-dir", func(rng *prng.R, d *tocDoc) bool {
-		n := rng.Pick(500, 5000)
+		n := rng.Pick(300, 2500)
 		t := rng.PickS("reg", "dir", "symlink", "hardlink")
 		for i := 0; i < n; i++ {
 			d.Entries = append(d.Entries, map[string]any{"name": fmt.Sprintf("huge/e%d", i), "type": t, "linkName": "huge/e0"})
